@@ -20,7 +20,9 @@
 
 /* Type TupleDecl::Decl::make_type(TypeLevel) const: the tuple type of that declaration at that level */
 struct Type _ZNK4bloc9TupleDecl4Decl9make_typeEh(const struct TupleDecl__Decl *this, unsigned char level)
-{ struct Type t; (void)this; t._vptr_Type = 0; t._major = ROWTYPE; t._minor = 0; t._level = level; return t; }
+{ struct Type t; (void)this; t._vptr_Type = 0; t._major = ROWTYPE; t._level = level;
+  /* tuple invariant (Tuple::Tuple): the minor type of a tuple is the hash of its declaration -- the one declaration in play is the tuple argument's */
+  t._minor = (g_eval_n >= 2 && V_MAJOR(&g_eval_snap[1]) == ROWTYPE) ? V_MINOR(&g_eval_snap[1]) : 0; return t; }
 _Bool g_is_varname, g_is_const;
 _Bool VCALL_Expression_isVarName(const struct Expression *e) { (void)e; return g_is_varname; }
 unsigned VCALL_Expression_symbolId(const struct Expression *e) { (void)e; return g_symid; }
@@ -63,6 +65,8 @@ PROP(C05, C09) __CPROVER_ensures((g_eval_n == 2 && g_isconst_n >= 1 && g_isconst
 PROP(C05, C09) __CPROVER_ensures((OK && g_eval_n == 2 && g_isconst_n >= 1 && g_isconst_all && V_IS(RCV, LITERAL)) ==> (RET != O1 && RET != O2 && V_IS(RET, LITERAL) && !V_LVALUE(RET)))
 /* a non-null table receiver stays uniform and grows by at most one element */
 PROP(C09) __CPROVER_ensures((g_eval_n == 2 && IS_TABLE(RCV)) ==> (ELEM_INV(COLL) && (TAB_SIZE(COLL) == g_eval_size[0] || (OK && TAB_SIZE(COLL) == g_eval_size[0] + 1))))
+/* C02: the call is typed like its receiver, and a successful call returns a value of the receiver's (defined) type */
+PROP(C02) __CPROVER_ensures((OK && g_eval_n >= 1 && V_MAJOR(A1) != NO_TYPE) ==> (V_MAJOR(RET) == V_MAJOR(A1) && V_LEVEL(RET) == V_LEVEL(A1) && (V_MINOR(RET) == V_MINOR(A1) || (V_MAJOR(A1) == ROWTYPE && (V_MINOR(A1) == 0 || (g_eval_n == 2 && V_MINOR(A2) == 0)) /* an opaque tuple declaration on either side */))))
 ;
 
 #include FNS_C
